@@ -38,6 +38,8 @@ ASSUMPTIONS = ["|now - created_at| in [598, 602] seconds may go either way (exac
                "the entropy seam made after the connection was accepted"]
 SHRINK = [["clients"], ["clients", "*", "script"]]
 URL = "ws://relay.example"
+URL2 = "wss://relay2.example:7447"
+URL3 = "ws://127.0.0.1:6969"
 DEFAULT_URL = "ws://localhost:6969"
 
 
@@ -79,7 +81,9 @@ def attempt(rng, ci, nclients, url_ok):
     elif kind == "url":
         u = url_ok
         spec["url"] = rng.choice([u[:2], u[:-1], u + "/", u + "x", u.upper(), "wss" + u[2:], "ws://evil.example",
-                                  "", u[5:], "http" + u[2:], u.replace("ws://", "ws://x.")])
+                                  "", u[5:], "http" + u[2:], u.replace("ws://", "ws://x."),
+                                  u + ".evil.org", "wss://evil.org/?" + u, "wss://evil.org/#" + URL3, " " + u, u + "\n",
+                                  "x" + URL2, URL2 + "0", "wss://evil.org/" + URL2 + "/x"])
         exp = "invalid"
     elif kind == "time":
         dt = rng.choice([0, 590, -590, 599, -599, 600, -600, 601, -601, 3600, -3600, 605, -605, 597, -597])
@@ -100,7 +104,7 @@ def attempt(rng, ci, nclients, url_ok):
 
 def gen(rng, knobs):
     backend = rng.choice(["sql", "lmdb"])
-    url_cfg = rng.choice(["list", "list", "default", "string"])
+    url_cfg = rng.choice(["list", "list", "default", "string", "list2", "list3"])
     url_ok = DEFAULT_URL if url_cfg == "default" else URL
     h = histgen.Hist(rng, nauthors=3)
     pool = [h.regular() for _ in range(24)]
@@ -147,6 +151,10 @@ def world_for(case, sim):
         auth["relay_urls"] = [URL]
     elif case["url_cfg"] == "string":
         auth["relay_urls"] = URL
+    elif case["url_cfg"] == "list2":
+        auth["relay_urls"] = [URL, URL2]
+    elif case["url_cfg"] == "list3":
+        auth["relay_urls"] = [URL2, URL, URL3]
     w = relay.RelayWorld(sim, case["backend"], case["clients"],
                          cfg={"authentication": auth, "service_privatekey": evgen.SERVICE_SK})
 
